@@ -30,13 +30,26 @@
    copy construction / assignment (re-append into an empty
    table of another capacity yields the same sequence)       -> C02_copy_refines
    bulk append / remove                                      -> C02_append_all_refines, C02_remove_all_refines
-   swap, ==, front/back, setValue through the iterator       -> inside C02_step_refines
+   swap (mechanism: each object takes over the other's fields
+   and re-anchors the list on ITS OWN end sentinel:
+   endItem.prev->next = &endItem / _begin.item = &endItem)    -> C02_swap_half_reanchors (one half), C02_swap_refines (the
+                                                                step exchanges the two sequences, capacities, bucket
+                                                                arrays and free lists; both lists end up anchored)
+   end sentinel: endItem.prev designates the last item (null
+   iff empty - this is what isEmpty() reads), and the list of
+   variable x runs into the sentinel of x, in every reachable
+   state                                                     -> C02_sentinel_links_step, C02_sentinel_anchored_step,
+                                                                C02_sentinel_reachable
+   ==, front/back, setValue through the iterator             -> inside C02_step_refines
    inserting a present key keeps its position and updates
    the value (HashMap)                                       -> C02_insert_present_hashmap
    ... or leaves the entry untouched (HashSet, PoolMap)      -> C02_insert_present_set_pool_untouched
    the reference object is a unique-key table                -> C02_spec_unique_keys
    node recycling (free-item list, blocks of 4): live items
-   and free list partition the allocated items, always       -> C02_pool_step, C02_pool_reachable
+   and free list partition the allocated items, always       -> C02_pool_step, C02_pool_reachable (together with the
+                                                                sentinel link: swap's "endItem.prev is null" branch
+                                                                drops the list it is handed, which loses no item only
+                                                                because the list is then empty)
 
    Validated by correspondence only (checks/C02.py): that the Model mirrors the C++ code (results,
    public state, bucket index and chain order of every key, slot of every item, free list, number of
@@ -46,7 +59,7 @@
    call is not made.  x = x is modelled with the self-assignment guard (see level_note of the check). *)
 From Coq Require Import ZArith List Bool Lia.
 From Common Require Import ListAux.
-From Hash Require Import HashBase HashSpec HashModel HashProofs HashRefine HashExtra HashPool.
+From Hash Require Import HashBase HashSpec HashModel HashProofs HashRefine HashExtra HashPool HashAnchor.
 Import ListNotations.
 Local Open Scope Z_scope.
 
@@ -203,8 +216,8 @@ Proof. exact remove_key_refines. Qed.
 Print Assumptions C02_remove_key_refines.
 
 Theorem C02_clear_refines :
-  forall (K : Type) (hash : K -> Z) (t : table K),
-  chains_ok K hash t -> chains_ok K hash (clear t) /\ abs K (clear t) = [].
+  forall (K : Type) (hash : K -> Z) (x : nat) (t : table K),
+  chains_ok K hash t -> chains_ok K hash (clear x t) /\ abs K (clear x t) = [].
 Proof. exact clear_refines. Qed.
 Print Assumptions C02_clear_refines.
 
@@ -248,17 +261,65 @@ Theorem C02_spec_unique_keys :
 Proof. exact spec_unique_keys. Qed.
 Print Assumptions C02_spec_unique_keys.
 
+(* node recycling, for every key equality (no keqb_spec): preserved together with the sentinel's prev link *)
 Theorem C02_pool_step :
   forall (K : Type) (keqb : K -> K -> bool) (hash : K -> Z) (kd : kind) (st : list (table K)) (o : op K),
-  Forall (pool_ok K) st -> Forall (pool_ok K) (fst (step keqb hash kd st o)).
+  Forall (links_ok K) st -> Forall (pool_ok K) st ->
+  Forall (links_ok K) (fst (step keqb hash kd st o)) /\ Forall (pool_ok K) (fst (step keqb hash kd st o)).
 Proof. exact pool_step. Qed.
 Print Assumptions C02_pool_step.
 
 Theorem C02_pool_reachable :
   forall (K : Type) (keqb : K -> K -> bool) (hash : K -> Z) (kd : kind) (caps : list Z) (ops : list (op K)),
+  Forall (links_ok K) (states K keqb hash kd (start K caps) ops) /\
   Forall (pool_ok K) (states K keqb hash kd (start K caps) ops).
 Proof. exact pool_reachable. Qed.
 Print Assumptions C02_pool_reachable.
+
+(* ---- swap and the end sentinel ------------------------------------------------------------------------ *)
+(* one half of swap(): the object in variable x takes over the fields of a table t that satisfies the invariant
+   and re-anchors the list; the result satisfies the invariant, holds the same sequence and is anchored on the
+   sentinel of x.  (The code branches on endItem.prev; that the null branch - which makes the receiving list
+   empty - loses nothing is where the invariant is used.) *)
+Theorem C02_swap_half_reanchors :
+  forall (K : Type) (hash : K -> Z) (x : nat) (t : table K),
+  chains_ok K hash t ->
+  chains_ok K hash (take x t) /\ abs K (take x t) = abs K t /\ end_owner (take x t) = x.
+Proof. exact take_refines. Qed.
+Print Assumptions C02_swap_half_reanchors.
+
+Theorem C02_swap_refines :
+  forall (K : Type) (keqb : K -> K -> bool) (hash : K -> Z)
+         (kd : kind) (st : list (table K)) (x y : nat) (a b : table K),
+  state_ok K hash st -> nth_error st x = Some a -> nth_error st y = Some b ->
+  let st' := fst (step keqb hash kd st (OSwap x y)) in
+  state_ok K hash st' /\
+  abs_st K st' = upd y (abs K a) (upd x (abs K b) (abs_st K st)) /\
+  (forall t : table K, nth_error st' y = Some t ->
+     end_owner t = y /\ cap t = cap a /\ buckets t = buckets a /\ free t = free a /\ nblocks t = nblocks a) /\
+  (x <> y -> forall t : table K, nth_error st' x = Some t ->
+     end_owner t = x /\ cap t = cap b /\ buckets t = buckets b /\ free t = free b /\ nblocks t = nblocks b).
+Proof. exact swap_refines. Qed.
+Print Assumptions C02_swap_refines.
+
+Theorem C02_sentinel_links_step :
+  forall (K : Type) (keqb : K -> K -> bool) (hash : K -> Z) (kd : kind) (st : list (table K)) (o : op K),
+  Forall (links_ok K) st -> Forall (links_ok K) (fst (step keqb hash kd st o)).
+Proof. exact links_step. Qed.
+Print Assumptions C02_sentinel_links_step.
+
+Theorem C02_sentinel_anchored_step :
+  forall (K : Type) (keqb : K -> K -> bool) (hash : K -> Z) (kd : kind) (st : list (table K)) (o : op K),
+  anchored K st -> anchored K (fst (step keqb hash kd st o)).
+Proof. exact anchored_step. Qed.
+Print Assumptions C02_sentinel_anchored_step.
+
+(* in every reachable state the list of variable x runs into the sentinel of x *)
+Theorem C02_sentinel_reachable :
+  forall (K : Type) (keqb : K -> K -> bool) (hash : K -> Z) (kd : kind) (caps : list Z) (ops : list (op K)),
+  anchored K (states K keqb hash kd (start K caps) ops).
+Proof. exact anchored_reachable. Qed.
+Print Assumptions C02_sentinel_reachable.
 
 (* ---- non-vacuity: integer keys, ALL keys in one bucket (hash = 0), capacities 7 / 0 (-> 1) / 2 ----- *)
 Definition ex_hash (k : Z) : Z := 0.
@@ -270,7 +331,7 @@ Definition ex_ops : list (op Z) :=
    OAppend 1 20 9; OAppend 1 30 3; OSwap 0 1; OEq 0 1; OCopy 2 1; OEq 2 1; ORemoveAt 1 1; ORemoveBack 1;
    OAssign 0 1; OClear 2; OAppend 2 7 7; OFind 1 30; OFind 1 10].
 Definition ex_states (kd : kind) : list (table Z) := states Z Z.eqb ex_hash kd (start Z ex_caps) ex_ops.
-Definition ex_t : table Z := nth 0 (states Z Z.eqb ex_hash KMap (start Z ex_caps) (firstn 6 ex_ops)) (new_table 1).
+Definition ex_t : table Z := nth 0 (states Z Z.eqb ex_hash KMap (start Z ex_caps) (firstn 6 ex_ops)) (new_table 0 1).
 
 Example ex_caps_ok : Forall (fun c : Z => 0 <= c) ex_caps.
 Proof. repeat constructor; discriminate. Qed.
@@ -331,4 +392,34 @@ Example ex_pool :
   [(1, [(0, 3); (0, 0)], [(0, 2); (0, 1)]);
    (2, [(0, 2); (0, 3)], [(1, 0); (0, 1); (0, 0); (1, 3); (1, 2); (1, 1)]);
    (1, [(0, 1)], [(0, 2); (0, 3); (0, 0)])].
+Proof. vm_compute. reflexivity. Qed.
+
+(* swap: variable 0 (capacity 7, four items) and variable 1 (capacity 1, EMPTY: the null branch of the
+   re-anchoring) - afterwards 0 is empty with capacity 1, 1 holds the four items with capacity 7, both lists
+   run into their own sentinel and endItem.prev designates the slot of the last item *)
+Definition ex_sw : list (table Z) := fst (step Z.eqb ex_hash KMap [ex_t; new_table 1 1] (OSwap 0 1)).
+Example ex_swap :
+  map (fun t => (cap t, entries t, end_prev t, end_owner t)) ex_sw =
+  [(1, [], None, 0%nat); (7, [(30, 3); (40, 4); (20, 2); (50, 5)], Some (1, 0), 1%nat)].
+Proof. vm_compute. reflexivity. Qed.
+
+(* the re-anchoring is what keeps the sentinel invariant: merely exchanging the two records leaves each list
+   running into the sentinel of the other variable *)
+Example ex_exchange_not_anchored :
+  anchored Z [ex_t; new_table 1 1] /\ ~ anchored Z (upd 1 ex_t (upd 0 (new_table 1 1) [ex_t; new_table 1 1])) /\ anchored Z ex_sw.
+Proof.
+  assert (two : forall st : list (table Z), length st = 2%nat ->
+            (forall t, nth_error st 0 = Some t -> end_owner t = 0%nat) ->
+            (forall t, nth_error st 1 = Some t -> end_owner t = 1%nat) -> anchored Z st).
+  { intros st Hl H0 H1 x t H. assert (Hx : (x < length st)%nat) by (apply nth_error_Some; congruence).
+    destruct x as [|[|x]]; [apply H0; exact H | apply H1; exact H | lia]. }
+  split; [|split].
+  - apply two; [reflexivity | |]; intros t H; vm_compute in H; injection H as <-; reflexivity.
+  - intros H. specialize (H 0%nat (new_table 1 1) eq_refl). vm_compute in H. discriminate.
+  - apply two; [vm_compute; reflexivity | |]; intros t H; vm_compute in H; injection H as <-; reflexivity.
+Qed.
+
+(* the link invariant in a reachable state: endItem.prev of every variable after the whole history *)
+Example ex_links : map (fun t => (end_prev t, map nslot (order t), end_owner t)) (ex_states KMap) =
+  [(Some (0, 0), [(0, 3); (0, 0)], 0%nat); (Some (0, 3), [(0, 2); (0, 3)], 1%nat); (Some (0, 1), [(0, 1)], 2%nat)].
 Proof. vm_compute. reflexivity. Qed.
